@@ -112,6 +112,16 @@ CHECKS = {
              "finding matched by exact value and context. Fixed point values are those from_float(k/256) builds.",
         design="2/C04",
     ),
+    "C10": dict(
+        category="exploration",
+        technique="exhaustive enumeration of short token / character strings, of all single token-level corruptions of valid programs, of meaningless families x contexts and of all import digraphs on <= 3 files",
+        text="Every text of the enumerated families is compiled by the real compiler; the outcome must be success, ParseError, "
+             "SsbCompilerError or ValueError; members of the families the property lists as meaningless must raise and leave "
+             "no output; import graphs with a reachable cycle, a missing file or routines in an imported file must be "
+             "rejected and all others accepted.",
+        note="The documented exception types are those of the compile() docstring.",
+        design="2/C10",
+    ),
     "C16": dict(
         category="exploration",
         technique="exhaustive single (thorough: adjacent double) separator deviations at every token boundary of each base program, plus alternative spellings; compiled ops compared with the base",
